@@ -325,7 +325,7 @@ def batch_replay(plan, wdir, crate, pending, log):
     if add:
         with open(lib, "a") as f:
             f.write("".join(add))
-        rc2, out2 = sh(["cargo", "kani", "playback", "-Z", "concrete-playback", "--features", ",".join([plan.pid.lower()] + plan.features), "--", "vp_playback_", "--test-threads=1"]   # harness statics are process-global: native tests must not run concurrently,
+        rc2, out2 = sh(["cargo", "kani", "playback", "-Z", "concrete-playback", "--features", ",".join([plan.pid.lower()] + plan.features), "--", "vp_playback_", "--test-threads=1"],
                        cwd=crate, env={"CARGO_TARGET_DIR": os.path.join(wdir, "target-pb")}, log=log, timeout=7200)
         for m in re.finditer(r"test (?:\w+::)*(vp_playback_\w+) \.\.\. (ok|FAILED)", out2):
             outcome[m.group(1)] = m.group(2)
@@ -646,7 +646,7 @@ def replay_file(mod, pid, path):
         print("replay file has no stored test source")
         return 2
     open(lib, "a").write(src)
-    rc, out = sh(["cargo", "kani", "playback", "-Z", "concrete-playback", "--features", ",".join([plan.pid.lower()] + plan.features), "--", "vp_playback_", "--test-threads=1"]   # harness statics are process-global: native tests must not run concurrently,
+    rc, out = sh(["cargo", "kani", "playback", "-Z", "concrete-playback", "--features", ",".join([plan.pid.lower()] + plan.features), "--", "vp_playback_", "--test-threads=1"],
                  cwd=crate, env={"CARGO_TARGET_DIR": os.path.join(wdir, "target-pb")}, timeout=7200)
     res = re.findall(r"test (?:\w+::)*(vp_playback_\w+) \.\.\. (ok|FAILED)", out)
     print("\n".join("%s %s" % r for r in res) or out[-1500:])
